@@ -156,6 +156,35 @@ def run(prop, tier, replay=None):
                 for f in r["failed"]:
                     if f[2] == "Crash":
                         other_fail.append(("rpc", r["_shard"], f[0], f[1], f[2]))
+            # ---- the transcoding cases of C03 (valid and invalid values, body framings, a mux configured with a newer
+            # revision of the messages than its handlers): only crashes are judged here
+            from . import transcode as TC
+            tcases = TC.req_cases("C03", TC.gen_abstract(scratch), rnd, "quick")
+            for i, c in enumerate(tcases):
+                c["id"] = i + 1
+            tpath, ttrace = scratch.path("tcases.jsonl"), scratch.path("ttrace.ndjson")
+            with open(tpath, "w") as f:
+                for c in tcases:
+                    f.write(json.dumps(c) + "\n")
+            p, _ = C.run([harness, "transcode", "-cases", tpath, "-out", ttrace, "-seed", str(seed)], timeout=3000)
+            if p.returncode != 0:
+                raise C.Infra("transcode driver failed:\n" + p.stdout[-3000:])
+            tby = {c["id"]: c for c in tcases}
+            for line in open(ttrace):
+                ev = json.loads(line)
+                other["transcode_cases"] += 1
+                if ev.get("crash") and not ev["crash"].startswith("setup") and not ev["crash"].startswith("driver"):
+                    sig = dict(module="Transcode", formula="NoCrash", crash=ev["crash"][:60])
+                    kf = C.match_finding(findings, prop, sig)
+                    if kf:
+                        known[kf["id"]] += 1
+                        continue
+                    key = ("NoCrash", "transcode", ev["crash"][:60])
+                    if key in viol:
+                        viol[key]["more"] += 1
+                        continue
+                    viol[key] = dict(property=prop, formula="NoCrash", seed=seed, cases=[tby.get(ev["case"])], observed=ev, signature=sig, more=0, replay_driver="transcode",
+                                     what="NoCrash in the transcoding cases: %s -> %s (replay: ./check C03 --replay)" % (ev.get("url", "")[:120], ev["crash"][:200]))
             # ---- the proxy path: a call through RegisterConn must end when the direct call ends
             from . import proxy as PX
             pv, ncalls = PX.hang_violations(prop, tier, scratch, harness, seed)
